@@ -2247,4 +2247,303 @@ theorem toNat_natCast_mul (k : Nat) (dt : Int) (hdt : 0 < dt) : ((k : Int) * dt)
   obtain ⟨n, rfl⟩ := Int.eq_ofNat_of_zero_le (Int.le_of_lt hdt)
   rw [← Int.natCast_mul, Int.toNat_natCast, Int.toNat_natCast]
 
+theorem intMeanSplits_le (a : List Int) : intMeanSplits a ≤ a.length - 1 := by
+  induction a using intMean.induct with
+  | case1 a h ih1 ih2 =>
+    rw [intMeanSplits_node h]
+    simp only [List.length_take, List.length_drop] at ih1 ih2
+    omega
+  | case2 a h => rw [intMeanSplits_leaf h]; omega
+
+/-! ## the shape of waves with dead time only between lines; the C02 geometries have it (deepening round D) -/
+
+/-- The info waves "with dead time only between lines" (C02's geometries, any lead-in, any dead time,
+    any truncation): discarded samples, then lines of exactly `B` used samples each followed by any
+    number of discarded samples, the last line possibly shorter and followed only by discarded
+    samples. -/
+inductive LinesOk (B : Nat) : List Nat → Prop
+  | nil : LinesOk B []
+  | zero {t : List Nat} : LinesOk B t → LinesOk B (0 :: t)
+  | line {U t : List Nat} : U.length = B → (∀ c ∈ U, c ≠ 0) → LinesOk B t → LinesOk B (U ++ t)
+  | last {U Z : List Nat} : U.length ≤ B → (∀ c ∈ U, c ≠ 0) → (∀ c ∈ Z, c = 0) → LinesOk B (U ++ Z)
+
+theorem usedOf_all_zero {α} : ∀ (Z : List Nat) (xs : List α), (∀ c ∈ Z, c = 0) → usedOf Z xs = []
+  | [], xs, _ => by cases xs <;> simp [usedOf]
+  | c :: cs, [], _ => by simp [usedOf]
+  | c :: cs, x :: xs, h => by
+    have hc := h c (by simp)
+    subst hc
+    simp only [usedOf, if_true]
+    exact usedOf_all_zero cs xs (fun c hc => h c (List.mem_cons_of_mem _ hc))
+
+theorem getD_mem (l : List Int) (i : Nat) (h : i < l.length) : l.getD i 0 ∈ l := by
+  rw [getD_eq _ _ h]; exact List.getElem_mem _
+
+theorem getD_append_l (l1 l2 : List Int) (i : Nat) (h : i < l1.length) :
+    (l1 ++ l2).getD i 0 = l1.getD i 0 := by
+  simp only [List.getD_eq_getElem?_getD, List.getElem?_append_left h]
+
+theorem getD_append_r (l1 l2 : List Int) (i : Nat) (h : l1.length ≤ i) :
+    (l1 ++ l2).getD i 0 = l2.getD (i - l1.length) 0 := by
+  simp only [List.getD_eq_getElem?_getD, List.getElem?_append_right h]
+
+theorem times_lo (dt : Int) (hdt : 0 < dt) (n : Nat) (t0 : Int) : ∀ y ∈ times t0 dt n, t0 ≤ y :=
+  (times_sep dt hdt n t0).2
+
+/-- in a wave of that shape no discarded sample lies between the first and the last used sample of a
+    line -/
+theorem linesOk_cont (B : Nat) (hB : 0 < B) (dt : Int) (hdt : 0 < dt) (iw : List Nat) (h : LinesOk B iw) :
+    ∀ (t0 : Int) (l : Nat), l * B < (usedOf iw (times t0 dt iw.length)).length →
+    ∀ t ∈ times t0 dt iw.length,
+      (usedOf iw (times t0 dt iw.length)).getD (l * B) 0 ≤ t →
+      t ≤ (usedOf iw (times t0 dt iw.length)).getD
+        (min ((l + 1) * B) (usedOf iw (times t0 dt iw.length)).length - 1) 0 →
+      t ∈ usedOf iw (times t0 dt iw.length) := by
+  induction h with
+  | nil => intro t0 l hl; simp [usedOf] at hl
+  | @zero tl _ ih =>
+    intro t0 l hl t ht hlo hhi
+    simp only [List.length_cons, times, usedOf, if_true] at hl ht hlo hhi ⊢
+    rcases List.mem_cons.mp ht with h0 | h0
+    · have hm := getD_mem _ _ hl
+      have := times_lo dt hdt _ _ _ ((usedOf_sublist _ _).subset hm)
+      omega
+    · exact ih (t0 + dt) l hl t h0 hlo hhi
+  | @line U tl hU hnz _ ih =>
+    intro t0 l hl t ht hlo hhi
+    have e1 : times t0 dt (U ++ tl).length = times t0 dt B ++ times (t0 + B * dt) dt tl.length := by
+      rw [List.length_append, hU, times_add]
+    have e2 : usedOf (U ++ tl) (times t0 dt (U ++ tl).length)
+        = times t0 dt B ++ usedOf tl (times (t0 + B * dt) dt tl.length) := by
+      rw [e1, usedOf_append _ _ _ _ (by rw [times_length, hU]),
+        usedOf_nonzero U _ hnz (by rw [times_length, hU])]
+    rw [e2] at hl hlo hhi ⊢
+    rw [e1] at ht
+    simp only [List.length_append, times_length] at hl hhi
+    have hA1 : ∀ y ∈ times t0 dt B, y + dt ≤ t0 + B * dt := times_stop dt hdt B t0
+    have hA2 : ∀ y ∈ times (t0 + B * dt) dt tl.length, t0 + B * dt ≤ y := times_lo dt hdt _ _
+    rcases Nat.eq_zero_or_pos l with hl0 | hl0
+    · subst hl0
+      -- the first line: its last sample is the last element of the first block
+      have hidx : min ((0 + 1) * B) (B + (usedOf tl (times (t0 + B * dt) dt tl.length)).length) - 1 = B - 1 := by
+        rw [Nat.zero_add, Nat.one_mul, Nat.min_eq_left (by omega)]
+      rw [hidx, getD_append_l _ _ _ (by rw [times_length]; omega)] at hhi
+      have hm := getD_mem (times t0 dt B) (B - 1) (by rw [times_length]; omega)
+      have := hA1 _ hm
+      rcases List.mem_append.mp ht with h1 | h2
+      · exact List.mem_append_left _ h1
+      · have := hA2 _ h2; omega
+    · obtain ⟨l', rfl⟩ : ∃ l', l = l' + 1 := ⟨l - 1, by omega⟩
+      have hmul : (l' + 1) * B = B + l' * B := by rw [Nat.add_mul]; omega
+      have hmul2 : (l' + 1 + 1) * B = B + (l' + 1) * B := by rw [Nat.add_mul (l' + 1) 1 B]; omega
+      have hl' : l' * B < (usedOf tl (times (t0 + B * dt) dt tl.length)).length := by omega
+      rw [hmul, getD_append_r _ _ _ (by rw [times_length]; omega), times_length,
+        Nat.add_sub_cancel_left] at hlo
+      have hidx : min ((l' + 1 + 1) * B) (B + (usedOf tl (times (t0 + B * dt) dt tl.length)).length) - 1
+          = B + (min ((l' + 1) * B) (usedOf tl (times (t0 + B * dt) dt tl.length)).length - 1) := by
+        rw [hmul2]; omega
+      rw [hidx, getD_append_r _ _ _ (by rw [times_length]; omega), times_length,
+        Nat.add_sub_cancel_left] at hhi
+      have hm := getD_mem _ _ hl'
+      have hge := hA2 _ ((usedOf_sublist _ _).subset hm)
+      rcases List.mem_append.mp ht with h1 | h2
+      · have := hA1 _ h1; omega
+      · exact List.mem_append_right _ (ih (t0 + B * dt) l' hl' t h2 hlo hhi)
+  | @last U Z hU hnz hz =>
+    intro t0 l hl t ht hlo hhi
+    have e1 : times t0 dt (U ++ Z).length = times t0 dt U.length ++ times (t0 + U.length * dt) dt Z.length := by
+      rw [List.length_append, times_add]
+    have e2 : usedOf (U ++ Z) (times t0 dt (U ++ Z).length) = times t0 dt U.length := by
+      rw [e1, usedOf_append _ _ _ _ (by rw [times_length]),
+        usedOf_nonzero U _ hnz (by rw [times_length]), usedOf_all_zero Z _ hz, List.append_nil]
+    rw [e2] at hl hlo hhi ⊢
+    rw [e1] at ht
+    simp only [times_length] at hl hhi
+    have hA1 : ∀ y ∈ times t0 dt U.length, y + dt ≤ t0 + U.length * dt := times_stop dt hdt _ t0
+    have hA2 : ∀ y ∈ times (t0 + U.length * dt) dt Z.length, t0 + U.length * dt ≤ y := times_lo dt hdt _ _
+    have hm := getD_mem (times t0 dt U.length) (min ((l + 1) * B) U.length - 1)
+      (by rw [times_length]; omega)
+    have := hA1 _ hm
+    rcases List.mem_append.mp ht with h1 | h2
+    · exact h1
+    · have := hA2 _ h2; omega
+
+/-- the semantic hypothesis `hcont` of `line_range_exact_raw` / `sum_over_ranges_eq_image` follows from
+    the shape of the info wave -/
+theorem hcont_of_linesOk (w : Wave) (hdt : 0 < w.dt) (k : Nat) (hk : w.pixelSize = some k) (P : Nat)
+    (hP : 0 < P) (hok : LinesOk (P * k) w.iw) :
+    ∀ l, l < numBlocks (w.usedTs.length / k) P → ∀ t ∈ w.allTs,
+      w.usedTs.getD (l * P * k) 0 ≤ t →
+      t ≤ w.usedTs.getD (min ((l + 1) * P) (w.usedTs.length / k) * k - 1) 0 → t ∈ w.usedTs := by
+  intro l hl t ht hlo hhi
+  have hk0 := pixelSize_pos w k hk
+  have hlt := (lt_numBlocks_iff _ _ _ hP).mp hl
+  have hm := mul_succ_le_of_lt_div _ _ _ hk0 hlt
+  have he3 := Nat.div_mul_le_self w.usedTs.length k
+  have he2 : min ((l + 1) * P) (w.usedTs.length / k) * k ≤ w.usedTs.length / k * k :=
+    Nat.mul_le_mul_right _ (Nat.min_le_right _ _)
+  have he4 : min ((l + 1) * P) (w.usedTs.length / k) * k ≤ (l + 1) * P * k :=
+    Nat.mul_le_mul_right _ (Nat.min_le_left _ _)
+  have hP1 : (l + 1) * P = l * P + P := by rw [Nat.add_mul]; omega
+  have he1 : (l * P + 1) * k ≤ min ((l + 1) * P) (w.usedTs.length / k) * k :=
+    Nat.mul_le_mul_right _ (by omega)
+  rw [Nat.add_mul] at he1
+  have a1 : l * (P * k) = l * P * k := (Nat.mul_assoc _ _ _).symm
+  have a2 : (l + 1) * (P * k) = (l + 1) * P * k := (Nat.mul_assoc _ _ _).symm
+  have hU : w.usedTs = usedOf w.iw (times w.start w.dt w.iw.length) := rfl
+  have hc := linesOk_cont (P * k) (Nat.mul_pos hP hk0) w.dt hdt w.iw hok w.start l
+    (by rw [← hU, a1]; omega) t ht (by rw [← hU, a1]; exact hlo)
+  rw [← hU] at hc
+  apply hc
+  rw [a2]
+  have hsep := usedTs_sep w hdt
+  have hle := hsep.getElem_le (by omega)
+    (i := min ((l + 1) * P) (w.usedTs.length / k) * k - 1)
+    (j := min ((l + 1) * P * k) w.usedTs.length - 1) (by omega) (by omega)
+  simp only [id] at hle
+  rw [getD_eq _ _ (by omega)] at hhi
+  rw [getD_eq _ _ (by omega)]
+  omega
+
+
+theorem linesOk_zeros_append (B : Nat) (t : List Nat) (h : LinesOk B t) : ∀ (n : Nat),
+    LinesOk B (List.replicate n 0 ++ t)
+  | 0 => by simpa using h
+  | n + 1 => by
+    rw [List.replicate_succ, List.cons_append]
+    exact LinesOk.zero (linesOk_zeros_append B t h n)
+
+theorem linesOk_zeros (B n : Nat) : LinesOk B (List.replicate n 0) := by
+  have := linesOk_zeros_append B [] LinesOk.nil n
+  simpa using this
+
+theorem geomPixel_length (k : Nat) (hk : 0 < k) : (geomPixel k).length = k := by
+  simp [geomPixel]; omega
+
+theorem geomPixel_nonzero (k : Nat) : ∀ c ∈ geomPixel k, c ≠ 0 := by
+  intro c hc
+  simp only [geomPixel, List.mem_append, List.mem_replicate, List.mem_singleton] at hc
+  rcases hc with ⟨_, rfl⟩ | rfl <;> decide
+
+theorem geomPixels_length (k : Nat) (hk : 0 < k) : ∀ (P : Nat),
+    (List.replicate P (geomPixel k)).flatten.length = P * k
+  | 0 => by simp
+  | P + 1 => by
+    rw [List.replicate_succ, List.flatten_cons, List.length_append, geomPixels_length k hk P,
+      geomPixel_length k hk, Nat.add_mul]; omega
+
+theorem geomPixels_nonzero (k P : Nat) : ∀ c ∈ (List.replicate P (geomPixel k)).flatten, c ≠ 0 := by
+  intro c hc
+  rcases List.mem_flatten.mp hc with ⟨p, hp, hcp⟩
+  rw [(List.mem_replicate.mp hp).2] at hcp
+  exact geomPixel_nonzero k c hcp
+
+theorem geomLines_ok (k P dead tail : Nat) (hk : 0 < k) : ∀ (lines : Nat),
+    LinesOk (P * k) ((List.replicate lines (geomLine k P dead)).flatten ++ List.replicate tail 0)
+  | 0 => by simpa using linesOk_zeros (P * k) tail
+  | n + 1 => by
+    rw [List.replicate_succ, List.flatten_cons, geomLine, List.append_assoc, List.append_assoc]
+    exact LinesOk.line (geomPixels_length k hk P) (geomPixels_nonzero k P)
+      (linesOk_zeros_append _ _ (geomLines_ok k P dead tail hk n) dead)
+
+theorem LinesOk.take {B : Nat} {l : List Nat} (h : LinesOk B l) : ∀ (n : Nat), LinesOk B (l.take n) := by
+  induction h with
+  | nil => intro n; simpa using LinesOk.nil
+  | zero _ ih =>
+    intro n
+    cases n with
+    | zero => simpa using LinesOk.nil
+    | succ n => rw [List.take_succ_cons]; exact LinesOk.zero (ih n)
+  | @line U t hU hnz _ ih =>
+    intro n
+    rw [List.take_append]
+    by_cases hn : n ≤ U.length
+    · have : t.take (n - U.length) = [] := by simp [Nat.sub_eq_zero_of_le hn]
+      rw [this]
+      exact LinesOk.last (by simp only [List.length_take]; omega)
+        (fun c hc => hnz c (List.mem_of_mem_take hc)) (by simp)
+    · rw [List.take_of_length_le (by omega)]
+      exact LinesOk.line hU hnz (ih _)
+  | @last U Z hU hnz hz =>
+    intro n
+    rw [List.take_append]
+    exact LinesOk.last (by simp only [List.length_take]; omega)
+      (fun c hc => hnz c (List.mem_of_mem_take hc)) (fun c hc => hz c (List.mem_of_mem_take hc))
+
+/-- every C02 kymograph geometry, truncated anywhere, has the shape `LinesOk` -/
+theorem geomKymo_linesOk (lead k P dead lines tail n : Nat) (hk : 0 < k) :
+    LinesOk (P * k) ((geomKymo lead k P dead lines tail).take n) :=
+  (linesOk_zeros_append _ _ (geomLines_ok k P dead tail hk lines) lead).take n
+
+theorem filter_take_prefix {α} (p : α → Bool) : ∀ (l : List α) (n : Nat),
+    (l.take n).filter p = (l.filter p).take ((l.take n).filter p).length
+  | [], n => by simp
+  | a :: t, 0 => by simp
+  | a :: t, n + 1 => by
+    rw [List.take_succ_cons, List.filter_cons, List.filter_cons]
+    cases hp : p a
+    · simp only [Bool.false_eq_true, if_false]; exact filter_take_prefix p t n
+    · simp only [if_true, List.length_cons, List.take_succ_cons]
+      rw [← filter_take_prefix p t n]
+
+theorem filter_nonzero_zeros (n : Nat) : (List.replicate n 0).filter (· ≠ 0) = [] := by
+  rw [List.filter_eq_nil_iff]; intro c hc; rw [(List.mem_replicate.mp hc).2]; decide
+
+theorem filter_nonzero_self (l : List Nat) (h : ∀ c ∈ l, c ≠ 0) : l.filter (· ≠ 0) = l := by
+  rw [List.filter_eq_self]; intro c hc; simpa using h c hc
+
+theorem geomLines_subset (k P dead : Nat) : ∀ (lines : Nat),
+    ((List.replicate lines (geomLine k P dead)).flatten).filter (· ≠ 0)
+      = (List.replicate (lines * P) (geomPixel k)).flatten
+  | 0 => by simp
+  | n + 1 => by
+    rw [List.replicate_succ, List.flatten_cons, List.filter_append, geomLines_subset k P dead n, geomLine,
+      List.filter_append, filter_nonzero_zeros, List.append_nil,
+      filter_nonzero_self _ (geomPixels_nonzero k P), Nat.add_mul, Nat.one_mul, Nat.add_comm (n * P) P,
+      ← List.replicate_append_replicate, List.flatten_append]
+
+theorem geomKymo_subset (lead k P dead lines tail : Nat) :
+    (geomKymo lead k P dead lines tail).filter (· ≠ 0) = (List.replicate (lines * P) (geomPixel k)).flatten := by
+  rw [geomKymo, List.filter_append, List.filter_append, filter_nonzero_zeros, filter_nonzero_zeros,
+    geomLines_subset]
+  simp
+
+theorem take_geomPixel (k r : Nat) (hr : r < k) : (geomPixel k).take r = List.replicate r 1 := by
+  rw [geomPixel, List.take_append_of_le_length (by simp; omega), List.take_replicate,
+    Nat.min_eq_left (by omega)]
+
+theorem take_geomPixels (k : Nat) (hk : 0 < k) : ∀ (M n : Nat), n ≤ M * k →
+    ((List.replicate M (geomPixel k)).flatten).take n
+      = (List.replicate (n / k) (geomPixel k)).flatten ++ List.replicate (n % k) 1
+  | 0, n, h => by
+    have : n = 0 := by omega
+    subst this; simp
+  | M + 1, n, h => by
+    rw [List.replicate_succ, List.flatten_cons]
+    by_cases hn : n < k
+    · rw [List.take_append_of_le_length (by rw [geomPixel_length k hk]; omega), take_geomPixel k n hn,
+        Nat.div_eq_of_lt hn, Nat.mod_eq_of_lt hn]
+      simp
+    · obtain ⟨j, rfl⟩ : ∃ j, n = k + j := ⟨n - k, by omega⟩
+      have hj : j ≤ M * k := by rw [Nat.add_mul] at h; omega
+      rw [List.take_append, geomPixel_length k hk, List.take_of_length_le (by rw [geomPixel_length k hk]; omega),
+        Nat.add_sub_cancel_left, take_geomPixels k hk M j hj, Nat.add_div_left j hk, Nat.add_mod_left,
+        List.replicate_succ, List.flatten_cons, List.append_assoc]
+
+/-- every C02 kymograph geometry, truncated anywhere after its first complete pixel, is `Regular` -/
+theorem geomKymo_regular (w : Wave) (lead k P dead lines tail n : Nat) (hk : 0 < k)
+    (hiw : w.iw = (geomKymo lead k P dead lines tail).take n) (hpix : k ≤ w.subset.length) :
+    w.Regular k (w.subset.length / k) (w.subset.length % k) := by
+  have hsub : w.subset = ((List.replicate (lines * P) (geomPixel k)).flatten).take w.subset.length := by
+    conv => lhs; unfold Wave.subset; rw [hiw, filter_take_prefix, geomKymo_subset]
+    congr 1
+    unfold Wave.subset; rw [hiw]
+  have hle : w.subset.length ≤ lines * P * k := by
+    have := congrArg List.length hsub
+    rw [List.length_take, geomPixels_length k hk] at this
+    omega
+  refine ⟨hk, Nat.div_pos hpix hk, Nat.mod_lt _ hk, ?_⟩
+  conv => lhs; rw [hsub]
+  exact take_geomPixels k hk _ _ hle
+
 end Verif.C03
